@@ -20,7 +20,7 @@ LIMITS = {
 def cases(draw, tier):
     lim = LIMITS[tier]
     nl = draw(gen.netlists(min_inputs=0, max_inputs=lim['max_inputs'], max_gates=lim['max_gates'],
-                           max_arity=5, styles=('plain', 'digits', 'mixed', 'keyword'), const_operands=(0, 0, 2, 3)))
+                           max_arity=5, wide_arity=13, styles=('plain', 'digits', 'mixed', 'keyword'), const_operands=(0, 0, 2, 3)))
     route = draw(gen.routes(nl))
     alt = draw(gen.routes(nl))
     n_all = len(nl['gates'])
@@ -179,7 +179,7 @@ def gate_tables(tier):
         elif name in refsem.FIXED_BINARY:
             arities = [2]
         else:
-            arities = [2, 3, 4, 5]
+            arities = list(range(2, 14))
         for k in arities:
             for vals in itertools.product((False, True), repeat=k):
                 got = gt.operator(*vals)
@@ -187,7 +187,7 @@ def gate_tables(tier):
                 n_checked += 1
                 if got is not exp:
                     fail('operator', f'{name}{vals} = {got!r}, reference {exp}')
-    samples.append('GateType.operator: all 19 types, n-ary at arity 2..5')
+    samples.append('GateType.operator: all 19 types, n-ary at arity 2..13')
 
     skipped = []
     # 2./3. synthesis truth-table codes
